@@ -39,10 +39,10 @@ Definition idk_eqb (a b : idk) : bool :=
 Inductive ty :=
 | TInt | TFlag | TAct | TNum | TStr | TCtl | TVal | TNumStr | TBytes
 | TNode            (* node id *)
-| TNodeNew         (* node id of a new node; -1 = server generated (no id mentioned) *)
+| TNodeNew         (* node id of a new node; may be -1 = server generated *)
 | TBuf             (* buffer number *)
 | TBus             (* control bus index *)
-| TBusM.           (* bus index in a mapping command; -1 = unmap (no id mentioned) *)
+| TBusM.           (* bus index in a mapping command; may be -1 = unmap *)
 
 Definition digit (c : ascii) : bool :=
   let n := nat_of_ascii c in (Nat.leb 48 n) && (Nat.leb n 57).
@@ -91,10 +91,10 @@ Definition eat (t : ty) (l : list arg) : option (ids * list arg) :=
     | TNumStr, AStr _ => Some ([], r)
     | TBytes, ABytes _ => Some ([], r)
     | TNode, AInt z => Some ([(KNode, z)], r)
-    | TNodeNew, AInt z => Some ((if z =? -1 then [] else [(KNode, z)]), r)
+    | TNodeNew, AInt z => Some ([(KNode, z)], r)
     | TBuf, AInt z => Some ([(KBuf, z)], r)
     | TBus, AInt z => Some ([(KBus, z)], r)
-    | TBusM, AInt z => Some ((if z =? -1 then [] else [(KBus, z)]), r)
+    | TBusM, AInt z => Some ([(KBus, z)], r)
     | _, _ => None
     end
   end.
@@ -300,7 +300,8 @@ Fixpoint arg_conf (a : arg) : bool :=
 Definition conforms (m : msg) : bool := arg_conf (AMsg (fst m) (snd m)).
 
 (* every server-side id mentioned by a message, nested completion messages included
-   ([] for a message that does not conform) *)
+   ([] for a message that does not conform); the reference's placeholder -1 (server generated
+   node id, unmap) is returned like any other number: props/C17.v treats -1 as a constant *)
 Fixpoint arg_ids (a : arg) : ids :=
   match a with
   | AMsg s l =>
